@@ -12,7 +12,7 @@ impl Check for C06 {
     }
     fn runs(&self, tier: Tier) -> u64 {
         match tier {
-            Tier::Quick => 150_000,
+            Tier::Quick => 600_000,
             Tier::Thorough => 8_000_000,
         }
     }
